@@ -13,6 +13,13 @@
 //     uploads everything again) and restarted once more.
 //
 // Identical (durable state, acknowledged set) pairs reached by several k are audited once.
+//
+// A history is a sequence of client operations (world.Ops): uploads and, in the live-remove
+// cases, RemoveBlobs calls.  The reference model of a crash state is world.model(acknowledged
+// prefix, operation in flight).  Histories cover one file, two unrelated files, files that
+// extend one another (shared chunks), orders in which the last schema upload misses a blob,
+// and files large enough to fill zips under the production 16 MiB limit; the lower layers
+// are memory stores or, in the disk cases, localdisk + leveldb (lower.go).
 package main
 
 import (
@@ -44,7 +51,7 @@ import (
 
 func main() {
 	ev.Main("C04", "fault_enumeration",
-		"files (single-zip, multi-zip via forced max zip size, periodic content with repeated chunk refs, same content under two names, just under/over the 512 KiB threshold) are written with perkeep's file writer and uploaded through blobserver.Receive in seeded orders (schema blob first/middle/last, chunks shuffled, duplicate uploads) into blobpacked over inject-wrapped memory small/large/meta; every lower-layer call index k of upload+packing is a crash point (freeze), every distinct (durable state, acked set) is restarted under none/fast/full recovery and with meta wiped, audited against the reference map, then removes + restart + re-upload + restart; a case is distinct per (history, crash state, recovery)",
+		"files (single-zip, multi-zip via forced max zip size, periodic content with repeated chunk refs, same content under two names, just under/over the 512 KiB threshold) are written with perkeep's file writer and uploaded through blobserver.Receive in seeded orders (schema blob first/middle/last, chunks shuffled, duplicate uploads) into blobpacked over inject-wrapped memory small/large/meta (some cases: localdisk small/large + leveldb meta); also several distinct files per store (unrelated, or one extending the other so that they share chunks; sequential or chunks-first), upload orders whose last schema upload misses a blob (never sent / sent later / schema only first), client removes inside the history (chunk before the pack with or without re-upload, packed blobs after the pack + re-upload), and files of 17-35 MiB under the production 16 MiB zip limit (crash points: the pack's writes only); every lower-layer call index k of upload+packing is a crash point (freeze), every distinct (durable state, acked set) is restarted under none/fast/full recovery and with meta wiped, audited against the reference map, then removes (a few loose and packed blobs, or all / all but one blob of one zip) + restart + re-upload + restart; a case is distinct per (history, crash state, recovery)",
 		run)
 }
 
@@ -468,6 +475,7 @@ func (c *caseCtx) runA() {
 		// the live and restart audits judge that the attempts had no client effect
 		if zipsOfWhole[f.WholeRef] == 0 {
 			r.Note("incomplete_at_last_schema", w.orderOf(f))
+			r.Note("incomplete_at_last_schema", "any")
 		} else {
 			r.Note("incomplete_at_last_schema", "packed-all-the-same:"+w.orderOf(f))
 		}
@@ -956,8 +964,9 @@ func genCases(r *ev.Run) []caseSpec {
 		fileSpec{Name: "two.bin", Size: 550*kib + rng.Intn(100*kib), Content: "random"})
 	out[len(out)-1].Loose = 2
 	// the last schema upload does not see every blob of the file
-	add("incomplete", 0, []string{"chunk-after-last-schema", "chunk-missing", "schema-only-early"}[rng.Intn(3)],
+	add("incomplete", 300*kib, []string{"chunk-after-last-schema", "chunk-missing", "schema-only-early"}[rng.Intn(3)],
 		fileSpec{Name: "late.bin", Size: 560*kib + rng.Intn(100*kib), Content: "random"})
+	out[len(out)-1].LateBlob = "last-chunk"
 	// client removes inside the live history
 	add("live-remove", 0, "schema-last", fileSpec{Name: "rm-after.bin", Size: 560*kib + rng.Intn(100*kib), Content: "random"})
 	out[len(out)-1].Removes = "after-pack"
@@ -976,6 +985,11 @@ func genCases(r *ev.Run) []caseSpec {
 	for i, o := range lateOrders {
 		mz := []int{0, 1 << 20, 0}[i]
 		add("incomplete", mz, o, fileSpec{Name: fmt.Sprintf("late%d.bin", i), Size: 600*kib + rng.Intn(900*kib), Content: "random"})
+	}
+	for i, o := range lateOrders[:2] { // the last chunk of a file that needs three zips
+		mz := 1<<20 + i*100*kib
+		add("incomplete", mz, o, fileSpec{Name: fmt.Sprintf("late-multi%d.bin", i), Size: 2*mz + mz/3 + rng.Intn(mz/3), Content: "random"})
+		out[len(out)-1].LateBlob = "last-chunk"
 	}
 	// ... on the second of two files that share a prefix (the first is packed)
 	add("incomplete", 0, "schema-last",
@@ -1097,6 +1111,8 @@ func run(r *ev.Run) {
 	r.Assume("the lower layers are perkeep's memory blob store and memory sorted KV behind inject wrappers: a crash is a fail-stop of every later lower-layer call; what the three layers hold at that moment is the durable state")
 	r.Assume("an acknowledged upload is a blobserver.Receive that returned nil before the crash; the upload in flight at the crash is uncertain (DESIGN A.1)")
 	r.Assume("after Fast/Full recovery a removed blob that is still contained in a zip may reappear (removals are not recorded in zips); counted as tolerated_resurrections, not judged")
+	r.Assume("blobpacked.RemoveBlobs issues its lower-layer calls concurrently: a crash point inside a client remove is the k-th lower call of that replay, which need not be the same call as in run A; live audits are made when the remove has returned, not from inside it")
+	r.Assume("files of tens of MiB (production zip limit): crash points are the writes of the pack only, live audits after those writes only, the range-fetch grid covers a seeded sample of 48 blobs, and only the completely packed state goes through the remove and re-restart stages")
 	r.Assume("crash points with identical durable state and acknowledged set (e.g. consecutive reads) are restarted once")
 
 	specs := genCases(r)
@@ -1214,6 +1230,7 @@ func run(r *ev.Run) {
 	r.Require("restart_after_live_remove", "none", "fast", "full", "zips-alone-fast", "zips-alone-full")
 	r.Require("zip_shape", "within-1MiB-of-the-16MiB-limit")
 	r.Require("lower_layers", "disk")
+	r.Require("incomplete_at_last_schema", "any")
 	if r.Thorough() {
 		r.Require("incomplete_at_last_schema", "chunk-after-last-schema", "chunk-missing", "schema-only-early")
 		r.Require("live_removes", "chunk-before-schema", "chunk-before-schema-reupload")
